@@ -150,6 +150,7 @@ class Sentinel:
         self.cfg = dict(ERR_CONFIGS[err_config])
         self.bystanders = []  # (name, kind, role, obj)
         self.transient = []
+        self._reported = set()
         self.last_raised = None
         self.n_calls = 0
         self.n_raised = 0
@@ -172,6 +173,18 @@ class Sentinel:
 
     def unwatch_all(self):
         self.bystanders = []
+
+    def _check(self, cond, monitor, site, mech, what, **wit):
+        """One observation; a given (monitor, site, mechanism) is reported once per case so that a defect that fires on
+        every call cannot exhaust the per-case violation budget and hide a different one."""
+        self.ctx.obs(monitor, site)
+        if cond:
+            return True
+        key = (monitor, site, mech)
+        if key not in self._reported:
+            self._reported.add(key)
+            self.ctx.violation(monitor, site, mech, what, **wit)
+        return False
 
     # -- the bracket ----------------------------------------------------------------------------
     def call(self, site, fn, *args, expect=(), modifies=(), law_monitor="call", **kwargs):
@@ -217,11 +230,9 @@ class Sentinel:
 
         # (c) numpy error configuration
         mon = "errstate_raise" if raised is not None else "errstate_return"
-        if not ctx.check(err_after == err_before, mon, site, "numpy_errstate_changed",
-                         "numpy.geterr() differs after the call (%s)" % ("call raised" if raised is not None else "call returned"),
-                         before=err_before, after=err_after,
-                         raised=type(raised).__name__ if raised is not None else None):
-            pass
+        self._check(err_after == err_before, mon, site, "numpy_errstate_changed",
+                    "numpy.geterr() differs after the call (%s)" % ("call raised" if raised is not None else "call returned"),
+                    before=err_before, after=err_after, raised=type(raised).__name__ if raised is not None else None)
         # (a) arguments
         for path, kind, obj, before in arg_before:
             after = _FP[kind](obj)
@@ -237,7 +248,7 @@ class Sentinel:
             mech = "argument_%s_changed" % kind
             if kind == "mesh" and wit.get("changed") and all(c.endswith("-> 0 elements") for c in wit["changed"]):
                 mech = "argument_mesh_containers_emptied"
-            ctx.check(before == after, "args", site, mech,
+            self._check(before == after, "args", site, mech,
                       "an %s passed to the function has different contents after the call" % kind,
                       where=path, raised=type(raised).__name__ if raised is not None else None, **wit)
         # (b) bystanders
@@ -252,7 +263,7 @@ class Sentinel:
                     wit["after"] = np.asarray(obj).ravel().tolist()[:12]
                 else:
                     wit["after"] = repr(obj)[:200]
-            ctx.check(before == after, "bystanders", site, "%s_changed" % role,
+            self._check(before == after, "bystanders", site, "%s_changed" % role,
                       "an object that was not passed to the call (%s) changed" % role, bystander=name,
                       raised=type(raised).__name__ if raised is not None else None, **wit)
 
